@@ -4,6 +4,7 @@ import (
 	"fmt"
 	"go/token"
 	"go/types"
+	"go/constant"
 	"math/big"
 	"os"
 	"path/filepath"
@@ -369,6 +370,53 @@ func (v *Verifier) globalPtr(st *State, g *ssa.Global) Value {
 	return &PtrV{Obj: o}
 }
 
+// globalBigFromInit returns the integer a package-level big.Int is set to by the package initialiser when that is a
+// single call g.SetString("<digits>", <base>) with constant arguments (nil otherwise).
+func (v *Verifier) globalBigFromInit(g *ssa.Global) *big.Int {
+	if g.Pkg == nil {
+		return nil
+	}
+	var found *big.Int
+	n := 0
+	for _, m := range g.Pkg.Members {
+		fn, ok := m.(*ssa.Function)
+		if !ok || !strings.HasPrefix(fn.Name(), "init") {
+			continue
+		}
+		for _, b := range fn.Blocks {
+			for _, ins := range b.Instrs {
+				call, ok := ins.(*ssa.Call)
+				if !ok {
+					continue
+				}
+				callee := call.Call.StaticCallee()
+				if callee == nil || callee.Name() != "SetString" || callee.Pkg == nil || callee.Pkg.Pkg.Path() != "math/big" || len(call.Call.Args) != 3 {
+					continue
+				}
+				if call.Call.Args[0] != ssa.Value(g) {
+					continue
+				}
+				sc, ok1 := call.Call.Args[1].(*ssa.Const)
+				bc, ok2 := call.Call.Args[2].(*ssa.Const)
+				if !ok1 || !ok2 || sc.Value == nil || bc.Value == nil || sc.Value.Kind() != constant.String {
+					return nil
+				}
+				base, _ := constant.Int64Val(bc.Value)
+				k, ok3 := new(big.Int).SetString(constant.StringVal(sc.Value), int(base))
+				if !ok3 {
+					return nil
+				}
+				found = k
+				n++
+			}
+		}
+	}
+	if n != 1 {
+		return nil
+	}
+	return found
+}
+
 // globalObj models a package-level variable whose value is fixed by its initialiser: the package init
 // function stores only constants into it and no other function of the package takes its address for writing.
 func (v *Verifier) globalObj(st *State, g *ssa.Global) (*Object, bool) {
@@ -406,6 +454,13 @@ func (v *Verifier) globalObj(st *State, g *ssa.Global) (*Object, bool) {
 		o := v.newObject(g.Name(), t, true)
 		o.Global = true
 		val := v.abstractVar("glob."+g.Pkg.Pkg.Name()+"."+g.Name(), t)
+		if v.isBig(t) {
+			// a package-level big.Int set by the initialiser with SetString(<constant>, <base>) - the modulus of a field
+			// package: the cell holds that integer (read off the initialiser, not assumed)
+			if k := v.globalBigFromInit(g); k != nil {
+				val = v.F.Int(k)
+			}
+		}
 		if v.isModule(t) && strings.HasSuffix(strings.ToLower(g.Name()), "infinity") {
 			// g1Infinity / g2Infinity: the neutral element (set to (1, 1, 0) by the package initialiser: Z = 0)
 			val = v.F.I64(0)
